@@ -109,11 +109,11 @@ def register(R):
     # ------------------------------------------------------------------ ranged download: extra args reach every GET
     R.add_fields(MPD, _client=ExtT('client'), _config=ObjT(LCFG), _os=ObjT(f'{L}:OSUtils'), _executor_cls=ExtT('executor_cls'),
                  _ioqueue=ExtT('ioqueue'))
-    R.external('ioqueue', put=ExtSpec(raises=('Exception',), blocking=True), get=ExtSpec(returns=Any, raises=()),
+    R.external('ioqueue', put=ExtSpec(raises=('Exception', 'OSError'), blocking=True), get=ExtSpec(returns=Any, raises=()),
                trigger_shutdown=ExtSpec(raises=()))
     R.mark_inline(f'{MPD}._calculate_range_param', f'{L}:StreamReaderProgress.__init__', f'{L}:StreamReaderProgress.read')
     R.add_fields(f'{L}:StreamReaderProgress', _stream=ExtT('respdict'), _callback=OptT(ExtT('legacy_cb')))
-    R.external('legacy_cb', **{'()': ExtSpec(raises=('Exception',), user_code=True)})
+    R.external('legacy_cb', **{'()': ExtSpec(raises=('Exception', 'OSError'), user_code=True)})
 
     def range_setup(eng, st, args, self_val):
         st.ghost['get_object_start'] = args['part_size'] * args['part_index']
@@ -157,12 +157,13 @@ def register(R):
         }
 
     R.contract(
-        f'{MPD}._download_range', props=['C02', 'C14', 'C15'],
+        f'{MPD}._download_range', props=['C02', 'C14', 'C15', 'C03'],
         params=dict(bucket=ExtT('str'), key=ExtT('str'), filename=ExtT('str'), part_size=Int, num_parts=Int, callback=OptT(ExtT('legacy_cb')),
                     part_index=Int, extra_args=EXTRA),
         setup=range_setup, checks=range_checks,
         raises={'Exception': lambda c: {}},
-        loops={0: LoopSpec(invariant=lambda l: {}, local_types={'last_exception': OptT(ExtT('exception')), 'current_index': Int}),
+        loops={0: LoopSpec(invariant=lambda l: {}, iteration_checks=lambda l0, l1, evs: R.retry_clauses(l1.engine, evs, ['C03']),
+                        local_types={'last_exception': OptT(ExtT('exception')), 'current_index': Int}),
                1: LoopSpec(invariant=inner_inv, iteration_checks=inner_iteration)},
     )
 
@@ -192,3 +193,4 @@ LEGACY_C14 = [f'{S3T}._download_file']
 LEGACY_C15 = [f'{S3T}.download_file', f'{S3T}._download_file', f'{MPD}._download_range', f'{MPU}.upload_file',
               f'{MPU}._extra_upload_part_args', f'{MPU}._extra_args_for']
 LEGACY_C02 = [f'{MPD}._download_range']
+LEGACY_C03 = [f'{MPD}._download_range']
